@@ -32,6 +32,8 @@ type Contract struct {
 	LoopInv     map[int][]ast.Expr
 	LoopInvSrc  map[int][]string
 	LoopGhost   map[int][]string
+	LoopAssume  map[int][]ast.Expr
+	LoopAssumeSrc map[int][]string
 	Asserts     []*AnchorClause
 	Trusted     bool
 	IsLemma     bool
@@ -252,6 +254,17 @@ func parseContractFile(path, pkg string) (*ContractFile, error) {
 				for _, g := range strings.Split(r3, ",") {
 					cur.LoopGhost[k] = append(cur.LoopGhost[k], strings.TrimSpace(g))
 				}
+			case "assume":
+				e, err := parseExprSrc(r3)
+				if err != nil {
+					return nil, fail(err)
+				}
+				if cur.LoopAssume == nil {
+					cur.LoopAssume = map[int][]ast.Expr{}
+					cur.LoopAssumeSrc = map[int][]string{}
+				}
+				cur.LoopAssume[k] = append(cur.LoopAssume[k], e)
+				cur.LoopAssumeSrc[k] = append(cur.LoopAssumeSrc[k], r3)
 			default:
 				return nil, fail(fmt.Errorf("unknown loop clause %q", w3))
 			}
